@@ -411,7 +411,7 @@ def m_replace(ctx, args, callee):
     return lift_str(ctx, lambda a, b, c: a.replace(b, c), as_str(ctx, args[0]), as_str(ctx, args[1]), as_str(ctx, args[2]))
 
 
-@model(r'^<(std::string::String|str) as std::ops::Index<(std::ops::)?Range(To|From|Full|Inclusive|ToInclusive)?<usize>>>::index$|^<(std::string::String|str) as std::ops::Index<RangeFull>>::index$'
+@model(r'^<(std::string::String|str) as (std::ops::)?Index<(std::ops::)?Range(To|From|Full|Inclusive|ToInclusive)?<usize>>>::index$|^<(std::string::String|str) as (std::ops::)?Index<RangeFull>>::index$'
        r'|^(core::)?str::<impl str>::get$', 'str_slice')
 def m_str_slice(ctx, args, callee):
     s_ = as_str(ctx, args[0])
@@ -1088,8 +1088,8 @@ def m_vec_deref(ctx, args, callee):
     return args[0]
 
 
-@model(r'^<Vec<.*> as std::ops::Index<usize>>::index$|^<\[.*\] as std::ops::Index<usize>>::index$'
-       r'|^<Vec<.*> as IndexMut<usize>>::index_mut$|^<VecDeque<.*> as std::ops::Index<usize>>::index$')
+@model(r'^<Vec<.*> as (std::ops::)?Index<usize>>::index$|^<\[.*\] as (std::ops::)?Index<usize>>::index$'
+       r'|^<Vec<.*> as IndexMut<usize>>::index_mut$|^<VecDeque<.*> as (std::ops::)?Index<usize>>::index$')
 def m_vec_index(ctx, args, callee):
     s = as_seq(ctx, args[0])
     idx = args[1]
@@ -1962,7 +1962,7 @@ def m_map_clear(ctx, args, callee):
     return UNIT
 
 
-@model(r'^<' + _MAPS + r'<.*> as std::ops::Index<.*>>::index$')
+@model(r'^<' + _MAPS + r'<.*> as (std::ops::)?Index<.*>>::index$')
 def m_map_index(ctx, args, callee):
     m = as_map(ctx, args[0])
     c = m.get(ctx, args[1])
